@@ -82,16 +82,35 @@ def confused_values() -> list[Any]:
             [{"title": "x"}, {"title": None}], range(3), (1, 2), {"size": -1}, "{{ x }}"]
 
 
-def env_pair(templates: dict[str, str]) -> Any:
+_ENV_CLASSES: dict[tuple[bool, bool], Any] = {}
+
+
+def env_pair(templates: dict[str, str], cfg: tuple[bool, bool, bool] = (True, True, False)) -> Any:
+    """An environment for the oracle. cfg = (resource limits on, suppress blank
+    control-flow blocks, auto_escape); see c02gen.CONFIGS."""
     from liquid2 import DictLoader, Environment
 
-    class E(Environment):
-        loop_iteration_limit = 3000
-        output_stream_limit = 300_000
-        context_depth_limit = 12
-        local_namespace_limit = 20_000
-
-    return E(loader=DictLoader(templates))
+    limits, suppress, esc = cfg
+    key = (limits, suppress)
+    if key not in _ENV_CLASSES:
+        if limits:
+            class E(Environment):
+                loop_iteration_limit = 3000
+                output_stream_limit = 300_000 if suppress else 300
+                context_depth_limit = 12
+                local_namespace_limit = 20_000
+                suppress_blank_control_flow_blocks = suppress
+        else:
+            class E(Environment):  # type: ignore[no-redef]
+                loop_iteration_limit = None
+                output_stream_limit = None
+                context_depth_limit = 30
+                local_namespace_limit = None
+                suppress_blank_control_flow_blocks = suppress
+        _ENV_CLASSES[key] = E
+    env = _ENV_CLASSES[key](loader=DictLoader(templates), auto_escape=esc)
+    env._verif_cfg = cfg
+    return env
 
 
 def check_exception(chk: C.Check, e: BaseException, where: str, replay: dict[str, Any], stats: dict[str, int]) -> None:
@@ -119,23 +138,43 @@ def check_exception(chk: C.Check, e: BaseException, where: str, replay: dict[str
                 f"{where} raised {name} ({str(e)[:80]}) instead of a LiquidError", replay)
 
 
+def _outcome_name(e: BaseException | None) -> str:
+    return "ok" if e is None else type(e).__name__
+
+
 def run_one(chk: C.Check, env: Any, src: str, data: dict[str, Any], stats: dict[str, int], replay: dict[str, Any]) -> None:
+    """from_string, render and render_async of one (source, data) pair: only
+    LiquidError may escape, and the async twin must end like the sync render
+    (same error class, or both succeed). Without resource limits a time-out is
+    not a finding (the run is skipped)."""
+    cfg = getattr(env, "_verif_cfg", (True, True, False))
+    replay = dict(replay, config={"limits": cfg[0], "suppress_blank_control_flow_blocks": cfg[1], "auto_escape": cfg[2]})
     stats["parse_render_cases"] += 1
+
+    def report(e: BaseException, where: str) -> None:
+        if isinstance(e, _Timeout) and not cfg[0]:
+            stats["timeouts_without_limits"] = stats.get("timeouts_without_limits", 0) + 1
+            return
+        check_exception(chk, e, where, replay, stats)
+
     signal.alarm(10)
     try:
         try:
             t = env.from_string(src)
         except BaseException as e:  # noqa: BLE001
             signal.alarm(0)
-            check_exception(chk, e, "from_string", replay, stats)
+            report(e, "from_string")
             return
         stats["parsed"] += 1
+        sync_e: BaseException | None = None
+        async_e: BaseException | None = None
         try:
             t.render(**data)
             stats["rendered"] += 1
         except BaseException as e:  # noqa: BLE001
             signal.alarm(0)
-            check_exception(chk, e, "render", replay, stats)
+            sync_e = e
+            report(e, "render")
             signal.alarm(10)
         try:
             loop = asyncio.new_event_loop()
@@ -145,7 +184,13 @@ def run_one(chk: C.Check, env: Any, src: str, data: dict[str, Any], stats: dict[
                 loop.close()
         except BaseException as e:  # noqa: BLE001
             signal.alarm(0)
-            check_exception(chk, e, "render_async", replay, stats)
+            async_e = e
+            report(e, "render_async")
+        signal.alarm(0)
+        if (_outcome_name(sync_e) != _outcome_name(async_e)
+                and not isinstance(sync_e, _Timeout) and not isinstance(async_e, _Timeout)):
+            chk.finding("render_async ends differently from render",
+                        f"render: {_outcome_name(sync_e)}, render_async: {_outcome_name(async_e)}", replay)
     finally:
         signal.alarm(0)
 
@@ -269,9 +314,11 @@ def run_oracles(chk: C.Check, r: Any, stats: dict[str, int]) -> None:
     vals = confused_values()
     r.shuffle(cts)
     nbase = len(cts) if thorough else 400
+    ncfg = 0
     for t in cts[:nbase]:
         src = t["template"]
-        env = env_pair(t.get("templates") or {})
+        ncfg += 1
+        env = env_pair(t.get("templates") or {}, G2.CONFIGS[ncfg % len(G2.CONFIGS)])
         base_data = t.get("data") or {}
         muts = [src]
         n = len(src)
@@ -284,14 +331,16 @@ def run_oracles(chk: C.Check, r: Any, stats: dict[str, int]) -> None:
                     {"source": m, "data": repr(data)[:600], "templates": t.get("templates") or {},
                      "how": "Environment.from_string(source).render(**data) and render_async"})
     # the original suite data too (unconfused), every template
-    for t in cts:
-        run_one(chk, env_pair(t.get("templates") or {}), t["template"], t.get("data") or {}, stats,
-                {"source": t["template"], "data": repr(t.get("data"))[:600]})
+    for n, t in enumerate(cts):
+        run_one(chk, env_pair(t.get("templates") or {}, G2.CONFIGS[n % len(G2.CONFIGS)]), t["template"],
+                t.get("data") or {}, stats, {"source": t["template"], "data": repr(t.get("data"))[:600]})
 
     # ---- (d2) every expression form in every argument position of every tag
-    for src, tpl, data in G2.expression_cases(r, chk.tier):
+    cfg_envs = {cfg: env_pair(G2.EXPR_TEMPLATES, cfg) for cfg in G2.CONFIGS}
+    for n, (src, tpl, data) in enumerate(G2.expression_cases(r, chk.tier)):
         stats["expression_form_cases"] += 1
-        run_one(chk, env_pair(tpl), src, data, stats,
+        # the configuration rotates with the form and the hole: every hole meets every configuration
+        run_one(chk, cfg_envs[G2.CONFIGS[(n + n // len(G2.EXPR_FORMS)) % len(G2.CONFIGS)]], src, data, stats,
                 {"source": src, "templates": tpl, "data": "harness/c02gen.py EXPR_DATA", "stream": "expression forms"})
     # ---- (d3) type-confused subscripts
     env = env_pair({})
@@ -304,6 +353,20 @@ def run_oracles(chk: C.Check, r: Any, stats: dict[str, int]) -> None:
         for name in g:
             run_graph(chk, genv, name, stats, {"templates": g, "entry": name, "stream": "template graphs",
                                                "how": "Environment(loader=DictLoader(templates)).get_template(entry).render()"})
+
+    # ---- (d5) buffer-using tags as the only content of (blank) blocks, under every configuration
+    for cfg in G2.CONFIGS:
+        benv = env_pair(G2.BUFFER_TEMPLATES, cfg)
+        for src, _tpl, data in G2.buffer_cases():
+            stats["blank_block_buffer_cases"] = stats.get("blank_block_buffer_cases", 0) + 1
+            run_one(chk, benv, src, data, stats, {"source": src, "templates": G2.BUFFER_TEMPLATES, "data": data,
+                                                  "stream": "blank blocks x buffer tags"})
+    # ---- (d6) stray break / continue: a Liquid error, the same from render and render_async
+    for cfg in G2.CONFIGS:
+        for src, tpl, data in G2.interrupt_cases():
+            stats["interrupt_cases"] = stats.get("interrupt_cases", 0) + 1
+            run_one(chk, env_pair(tpl, cfg), src, data, stats,
+                    {"source": src, "templates": tpl, "stream": "stray break/continue"})
 
     # ---- (e) the recorded witnesses, re-observed on every run
     env = env_pair({})
